@@ -10,6 +10,7 @@ import (
 
 func init() {
 	register("C11", func(c *core.Ctx, tier string) {
+		pollInstalledOnlyWhileClientIsThere(c, "C11.17")
 		truncatedBodyRefused(c, "C11.13")
 		requestRevalidatesTransport(c, "C11.14")
 		handlerReleasedUnderMutex(c, "C11.15")
